@@ -178,7 +178,7 @@ def check(ctx, clean, dirty, replay):
 
 def run(ctx):
     rng = ctx.subrng("c19")
-    n = ctx.budget(200, 3000)
+    n = ctx.budget(400, 3000)
     maxd = 4 if ctx.tier == "quick" else 6
     for i in range(n):
         if ctx.time_left() < 0:
